@@ -168,6 +168,49 @@ def c06_edges(tier, seed):
                     probe('%s/estimate%d' % (libname, r_), est, T, inside, has_cp_all)
             if len(samples) < 3:
                 samples.append({'library': libname, 'groups': [str(k) for k in keys], 'range': want})
+    # the valid range CHANGED after construction (set_range), asked before and after at the same temperatures, on the same object
+    from pgradd.ThermoChem import ThermochemIncomplete
+    from pgradd.ThermoChem.raw_data import ThermochemRawData
+    tab = {300.: 3.0, 400.: 3.4, 500.: 3.9, 600.: 4.3, 800.: 4.9, 1000.: 5.2}
+    makers = {'table correlation': lambda: ThermochemRawData(1.0, 2.0, sorted(tab), [tab[t] for t in sorted(tab)], 298.15, (298., 1000.)),
+              'correlation with missing parts, with Cp': lambda: ThermochemIncomplete(1.0, 2.0, dict(tab), 298.15, (298., 1000.)),
+              'correlation without Cp': lambda: ThermochemIncomplete(1.0, 2.0, {}, 298.15, (298., 1000.))}
+    for tag, mk in makers.items():
+        with real.quiet():
+            c = mk()
+        has_cp = 'without' not in tag
+        distinct += 1
+        for T in (900., 350.):
+            probe(tag + ' [as constructed]', c, T, True, has_cp)
+        c.set_range((298., 500.))
+        for T, inside in ((900., False), (350., True), (900., False)):
+            probe(tag + ' [after set_range((298, 500))]', c, T, inside, has_cp)
+        c.set_range((298., 1000.))
+        probe(tag + ' [after widening back]', c, 900., True, has_cp)
+    # known findings (design level, identified by their class): K5 an estimate keeps the range computed when it was made although it shares
+    # the group objects with the library; K6 a group with a table but NO declared range is ignored in the intersection although its table
+    # correlation refuses temperatures outside the table
+    from pgradd.GroupAdd.Library import GroupLibrary
+    from pgradd.ThermoChem import ThermochemGroup
+    tabB = {300.: 1.0, 500.: 1.5, 800.: 2.0, 1000.: 2.2, 1500.: 2.4}
+    with real.quiet():
+        lib5 = GroupLibrary(None, {'A': {'thermochem': ThermochemGroup(-10., 25., dict(tab), 298.15, (298., 1000.))}})
+        lib5.name = 'C'
+        est5 = lib5.Estimate({'A': 1}, 'thermochem')
+        lib5['A']['thermochem'].update(ThermochemGroup(None, None, {1500.: 5.5}, 298.15, (298., 1500.)))
+        n += 1
+        if est5.get_range() != lib5['A']['thermochem'].get_range():
+            viol.append({'id': 'estimate-range-after-group-update', 'cls': 'K5:estimate-range-snapshot', 'input': 'Estimate({A: 1}); then lib[A].update(wider range)',
+                         'observed': {'estimate': est5.get_range(), 'its only group': lib5['A']['thermochem'].get_range()}, 'expected': 'equal'})
+        lib6 = GroupLibrary(None, {'A': {'thermochem': ThermochemGroup(-10., 25., dict(tabB), 298.15, (298., 1500.))},
+                                   'B': {'thermochem': ThermochemGroup(-1., 2., dict(tab), 300.)}})
+        lib6.name = 'C'
+        est6 = lib6.Estimate({'A': 1, 'B': 1}, 'thermochem')
+        n += 1
+        k6 = real.outcome(est6.get_HoRT, 1200.)
+        if k6[0] != 'ok':
+            viol.append({'id': 'undeclared-range-table', 'cls': 'K6:undeclared-range-table', 'input': 'estimate of A (range 298-1500) + B (table 300-1000, no declared range) at 1200 K',
+                         'observed': {'estimate range': est6.get_range(), 'get_HoRT(1200)': k6}, 'expected': 'a finite number inside the reported range'})
     return {'name': 'range-edges', 'evaluations': n, 'distinct_nontrivial': distinct, 'violations': viol, 'samples': samples,
             'bound': 'all groups with a range of %d libraries x 12 temperatures x 3 properties + random estimates' % len(libs),
             'rule': 'a case is (correlation, temperature, property); distinct correlations counted'}
